@@ -34,7 +34,7 @@ const Rule = "cases = (implementation, hash function, HashOpts, shuffle seed, hi
 	"11^2 .. 101^2 with every key colliding (oracle only above 2000 slots, run.Huge()), tables of 10^6 entries (oracle only, run.Huge()); " +
 	"distinct = distinct (header, op list)"
 
-var mode = c02.Mode{ProbeBound: true, Watchdog: 2 * time.Second}
+var mode = c02.Mode{ProbeBound: true, Watchdog: 10 * time.Second}
 
 func Exec(c hx.Case) hx.Result {
 	switch hx.HeaderGet(c.Header, "comp") {
